@@ -221,7 +221,7 @@ def include_oracle(ctx):
             w("bin.txt", b"\xff\xfe\x00bad")
             w("latin.txt", "caf\xe9".encode("latin-1"))
             w("ok.html", "<b>raw</b>")
-            w("top.md", "".join(inc(f) for f in ["missing.md", "bin.md", "bin.txt", "ok.html", "chain40.md", "sub/c.md"]) + inc("latin.txt", "   :encoding: latin-1\n") + inc("latin.txt", "   :encoding: nope\n") + inc("latin.txt"))
+            w("top.md", "".join(inc(f) for f in ["missing.md", "bin.md", "bin.txt", "ok.html", "chain40.md", "sub/c.md", "bin.txt/more.md", "ok.html/x.txt", "n" * 300 + ".md", "\u65e5" * 100 + ".md", "sub", "sub/", ".", "..", "a\x00b.md", "~/x.md", "/etc/hostname", "sub/../sub/../a.md"]) + inc("latin.txt", "   :encoding: latin-1\n") + inc("latin.txt", "   :encoding: nope\n") + inc("latin.txt"))
             D = RSTDirective if style == "rst" else FencedDirective
             for rend in ("html", None):
                 md = mistune.create_markdown(renderer=rend, plugins=[D([Include(), Admonition(), TableOfContents()])])
